@@ -198,6 +198,31 @@ def run(ctx):
                     viol.append(dict(v, what="expected %s after STARTTLS, AUTHENTICATE lines: %r" % (exp, [a[:40] for a in auths])))
                 if any("unannounced" in l for l in srv.log):
                     viol.append(dict(v, what="server protocol log: %r" % srv.log))
+    # what the accessors hand out belongs to the caller: a caller that adds mechanism names to the list `get_sasl_mechanisms()`
+    # gave it (or empties it) changes nothing about what the next connection — of this client or another — announces and uses
+    for sasl_first in (b"", b"PLAIN", None):
+        for later_sasl in (b"", None, b"LOGIN"):
+            for same_client in (False, True):
+                srv1 = refserver.RefServer(r, starttls=False, sasl=sasl_first)
+                s1 = msref.Session()
+                s1.connect(b"", [], "user", "pw", server=srv1)
+                try:
+                    got = s1.client.get_sasl_mechanisms()
+                    if isinstance(got, list):
+                        got.extend(["PLAIN", "LOGIN", "DIGEST-MD5"])
+                except Exception:  # noqa
+                    pass
+                srv2 = refserver.RefServer(r, starttls=False, sasl=later_sasl)
+                s2 = s1 if same_client else msref.Session()
+                nw = len(s2.wire.writes) if same_client else 0
+                out = s2.connect(b"", [], "user", "pw", server=srv2)
+                evals += 1
+                auths = [b for _, b in s2.wire.writes if b.upper().startswith(b"AUTHENTICATE")]
+                announced = (later_sasl or b"").split()
+                bad = [a for a in auths if not any(b'"' + m + b'"' in a.upper() for m in announced)]
+                if bad:
+                    viol.append({"what": "credentials sent with a mechanism the server did not announce (%r announced) after the caller had added names to the list "
+                                         "get_sasl_mechanisms() returned on an earlier connection: %r" % (later_sasl, bad[0][:50]), "mechanism": None})
     model = run_driver(lines, live_table=False)
     diffs = [{"suite": "client", "request": l[:300], "impl": e[:300], "model": m[:300]} for l, e, m in zip(lines, expect, model) if e != m]
     fresh, known = split_known("C16", viol, matcher)
